@@ -18,6 +18,7 @@ package iptables
 // reported as violations.
 
 import (
+	"encoding/json"
 	"errors"
 	"fmt"
 	"regexp"
@@ -962,9 +963,30 @@ func TestVerif_C15(t *testing.T) {
 			cfg := c15CfgFromName(d.Spec)
 			cfg.MaxFaults = 2
 			cfg.NoInv = true
-			fails, err := hbfs.Replay(c15Spec(cfg, 99, false), d.History)
-			if err != nil {
-				c.ToolError(err.Error())
+			// (replay every prefix on a fresh instance, as the explorer does: Check's probes drive the
+			// instance further, so it must not run between the steps of one instance)
+			var fails []hbfs.Fail
+			var evs []c15Ev
+			for _, h := range d.History {
+				var e c15Ev
+				if err := json.Unmarshal([]byte(h), &e); err != nil {
+					c.ToolError("bad event in replay file: " + err.Error())
+					return
+				}
+				evs = append(evs, e)
+			}
+			for i := 1; i <= len(evs); i++ {
+				if err := vk.Catch(func() error {
+					s := c15New(cfg)
+					for _, e := range evs[:i] {
+						c15Apply(s, e)
+					}
+					fails = append(fails, c15Check(s, evs[:i])...)
+					return nil
+				}); err != nil {
+					fails = append(fails, hbfs.Fail{Key: c15PanicKey(err.Error(), nil), Msg: err.Error()})
+					break
+				}
 			}
 			for _, f := range fails {
 				c.Violation(f.Key, map[string]any{"spec": d.Spec, "history": d.History, "msg": f.Msg})
